@@ -445,7 +445,42 @@ func (e *stickyEngine) run(fn *ssa.Function, k int, strongMixed bool) *stResult 
 			return st
 		}
 		bo, ok := ifi.Cond.(*ssa.BinOp)
-		if !ok || (bo.Op != token.EQL && bo.Op != token.NEQ) {
+		if !ok {
+			return st
+		}
+		if e.field == m.F.Prec && (bo.Op == token.LSS || bo.Op == token.GEQ || bo.Op == token.GTR || bo.Op == token.LEQ) {
+			// an ordering test of the receiver's precision against a non-constant Y: on the edge
+			// where prec >= Y (or prec > Y) the receiver's precision is zero only if Y is zero too,
+			// i.e. there is no precision to inherit: counts as examined
+			isZPrec := func(v ssa.Value) bool {
+				lf, ok := m.LoadOfDecField(stripConv(v))
+				return ok && lf.Field == m.F.Prec && m.RefOf(lf.X).OnlyParam(k)
+			}
+			_, xc := bo.X.(*ssa.Const)
+			_, yc := bo.Y.(*ssa.Const)
+			geEdge := -1
+			switch {
+			case isZPrec(bo.X) && !yc:
+				switch bo.Op {
+				case token.LSS:
+					geEdge = 1
+				case token.GEQ, token.GTR:
+					geEdge = 0
+				}
+			case isZPrec(bo.Y) && !xc:
+				switch bo.Op {
+				case token.GTR:
+					geEdge = 1
+				case token.LEQ, token.LSS:
+					geEdge = 0
+				}
+			}
+			if si == geEdge && st&sE != 0 {
+				return (st &^ sE) | sG
+			}
+			return st
+		}
+		if bo.Op != token.EQL && bo.Op != token.NEQ {
 			return st
 		}
 		eqEdge := 0
